@@ -19,16 +19,27 @@ fn mk_task(id: usize) -> Task {
 /// finds the next sibling by position in the list, not by id arithmetic).
 /// Depth-2 trees (nodes 1..=7: internal 1..=3, leaves 4..=7). Harness loops are unrolled.
 fn dfs_tree2<const ID1: usize>(max_iterations: Option<usize>) {
+    dfs_tree2_lit::<ID1, 9, 9, 9>(max_iterations)
+}
+
+/// As `dfs_tree2`, with the kinds of nodes 1, 2, 3 literal where the parameter is 0..=2 and symbolic where it is 9
+/// (a fully symbolic tree makes the length of the scheduler's `levels` vector symbolic at every call and exhausts
+/// the solver's memory; with literal kinds the control flow inside the scheduler is concrete).
+fn dfs_tree2_lit<const ID1: usize, const K1: u8, const K2: u8, const K3: u8>(max_iterations: Option<usize>) {
     const NODES: usize = 8;
     const D: usize = 2;
     let t0 = mk_task(0);
     let t1 = mk_task(ID1);
     let mut kind = [0u8; NODES];
+    let lit = [0u8, K1, K2, K3];
     let mut i = 1;
     crate::unroll!(3, {
-        let k: u8 = kani::any();
-        kani::assume(k <= 2);
-        kind[i] = k;
+        if lit[i] <= 2 {
+            kind[i] = lit[i];
+        } else {
+            let k: u8 = kani::any();
+            kind[i] = k % 3;
+        }
         i += 1;
     });
     // reachable leaves of the tree
@@ -125,9 +136,12 @@ fn dfs_tree2<const ID1: usize>(max_iterations: Option<usize>) {
             assert!(terminated, "C09: DFS did not stop at the iteration bound / end of the tree");
         }
     }
-    kani::cover!(n_leaves >= 3, "tree with at least 3 leaves");
-    kani::cover!(n_leaves == 1, "tree with a single schedule");
-    kani::cover!(n_leaves == 4, "complete binary tree");
+    if K1 == 9 && K2 == 9 && K3 == 9 {
+        kani::cover!(n_leaves >= 3, "tree with at least 3 leaves");
+        kani::cover!(n_leaves == 1, "tree with a single schedule");
+        kani::cover!(n_leaves == 4, "complete binary tree");
+    }
+    kani::cover!(execs >= 1 || max_iterations == Some(0), "at least one execution ran");
     std::mem::forget(sched);
     std::mem::forget(t0);
     std::mem::forget(t1);
@@ -148,4 +162,26 @@ crate::harness! {
         kani::assume(k <= 5);
         dfs_tree2::<1>(Some(k));
     }
+}
+
+fn any_bound() -> Option<usize> {
+    if kani::any() {
+        None
+    } else {
+        Some((kani::any::<u8>() % 6) as usize)
+    }
+}
+
+// probes: one symbolic node, the other two literal
+crate::harness! {
+    #[kani::unwind(6)]
+    fn c09_dfs_sym_root_22() { dfs_tree2_lit::<1, 9, 2, 2>(any_bound()); }
+}
+crate::harness! {
+    #[kani::unwind(6)]
+    fn c09_dfs_2_sym_2() { dfs_tree2_lit::<1, 2, 9, 2>(any_bound()); }
+}
+crate::harness! {
+    #[kani::unwind(6)]
+    fn c09_dfs_lit_222() { dfs_tree2_lit::<1, 2, 2, 2>(any_bound()); }
 }
